@@ -121,7 +121,7 @@ func init() {
 	// bucket and written to with the same ids and different contents. Every item a read returns must be a
 	// row of the ledger that was asked.
 	register(Profile{Property: "C19", Name: "bucket-growth", Gen: func(r *RNG, seed uint64, tier string) (*Scenario, *ExploreCfg) {
-		sc := &Scenario{Property: "C19", Profile: "bucket-growth", Knobs: randomKnobs(r), Checks: []string{"isolation", "reads-stay-in-ledger", "replay"}}
+		sc := &Scenario{Property: "C19", Profile: "bucket-growth", Knobs: randomKnobs(r), Checks: []string{"isolation", "reads-stay-in-ledger", "replay", "statements-stay-in-ledger"}}
 		g := &gen{r: r, sc: sc}
 		feats := ledgerFeatures(sc.Knobs)
 		sc.Setup = []Op{{ID: g.id("s"), Kind: KCreateLedger, Ledger: "g1", Feats: feats, Bucket: "grow"}}
@@ -551,7 +551,7 @@ func init() {
 	// builds for them are audited for their ledger predicates; the answers the simulation can produce are
 	// checked item for item.
 	register(Profile{Property: "C19", Name: "read-statements", Gen: func(r *RNG, seed uint64, tier string) (*Scenario, *ExploreCfg) {
-		sc := &Scenario{Property: "C19", Profile: "read-statements", Knobs: randomKnobs(r), Checks: []string{"reads-are-scoped", "reads-stay-in-ledger", "isolation"},
+		sc := &Scenario{Property: "C19", Profile: "read-statements", Knobs: randomKnobs(r), Checks: []string{"reads-are-scoped", "reads-stay-in-ledger", "isolation", "statements-stay-in-ledger"},
 			Params: map[string]string{"lenient_reads": "1"}}
 		g := &gen{r: r, sc: sc}
 		feats := func() map[string]string {
@@ -665,7 +665,44 @@ func init() {
 	// point-in-time reads take their metadata from.
 	register(Profile{Property: "C17", Name: "history-reads", Gen: func(r *RNG, seed uint64, tier string) (*Scenario, *ExploreCfg) {
 		sc, ex := profiles["C35"][0].Gen(r, seed, tier)
-		sc.Property, sc.Profile, sc.Checks = "C17", "history-reads", []string{"metadata-history-reads", "current-metadata"}
+		sc.Property, sc.Profile, sc.Checks = "C17", "history-reads", []string{"metadata-history-reads", "current-metadata", "metadata-history-rows"}
 		return sc, ex
 	}})
+}
+
+// ---------------------------------------------------------------- C19, both halves, execution level
+
+// checkStatementsStayInLedger: no statement the real storage layer executed on behalf of one ledger matched -
+// returned, locked (FOR UPDATE), updated or deleted - a row of another ledger of the bucket. Judged by the
+// interpreter on every statement it executes (reads and the whole write path), whatever the statement's text.
+func checkStatementsStayInLedger(r *runner) []Violation {
+	var vs []Violation
+	r.w.mu.Lock()
+	fs := append([]ForeignRow(nil), r.w.foreign...)
+	r.w.mu.Unlock()
+	if len(fs) == 0 {
+		return nil
+	}
+	created := map[string]uint64{}
+	for _, rec := range r.w.db.CommitsSince(0) {
+		for _, wr := range rec.Writes {
+			if wr.Key.Table == "ledger" && wr.Before == nil && wr.After != nil {
+				created[wr.Key.Key] = rec.Event
+			}
+		}
+	}
+	seen := map[string]bool{}
+	for _, f := range fs {
+		tag := " [the bucket already held its ledgers when the request was sent]"
+		if or := r.byID[opIDOf(f.Task)]; or != nil && created[f.RowLedger] > or.Out.Invoke {
+			tag = " [ledger " + f.RowLedger + " was added to the bucket while this read was in flight]"
+		}
+		k := f.Task + f.Table + tag
+		if seen[k] {
+			continue
+		}
+		seen[k] = true
+		vs = append(vs, Violation{r.sc.Property, "statements-touch-only-their-ledgers-rows", fmt.Sprintf("%s, a request on ledger %s, executed a statement that matched a row of ledger %s (table %s, key %s): %s%s", f.Task, f.Ledger, f.RowLedger, f.Table, strings.ReplaceAll(f.Key, "\x00", "/"), f.SQL, tag)})
+	}
+	return vs
 }
